@@ -44,6 +44,10 @@ const (
 	// setCaughtUp(true) is not guarded by the follow generation: a follow session
 	// superseded by a new FOLLOW finishes its handshake and marks the server caught up
 	findingStaleSession = "stale-follow-session-sets-caught-up"
+	// followCheckSome takes "verified prefix ends on a command boundary" for "log
+	// fully intact": the follower keeps the unverified rest of its log and dataset,
+	// asks for the stream from the verified position and applies it on top
+	findingKeepsTail = "follower-keeps-unverified-tail"
 )
 
 func caseSeed(sub string, i int) int {
@@ -166,6 +170,10 @@ func runCases(t *testing.T, c *ev.Collector, specs []caseSpec, workers int, budg
 		}
 		c.LabelN("binding-claims-compared", out.claimsCheckd)
 		c.LabelN("oracle-evaluations", out.syncs)
+		if out.skipped != "" {
+			c.Excluded(out.skipped)
+			continue
+		}
 		if out.inconclusive != "" {
 			c.Label("inconclusive")
 			c.Inconclusive("case %d: %s", r.i, out.inconclusive)
@@ -319,6 +327,13 @@ func probes() []probe {
 				TailRest: true},
 		},
 		{
+			name: "resume-on-command-boundary", finding: findingKeepsTail, status: "open",
+			what: "leader log of ~640 KiB in which a command ends exactly at offset 524288; the follower (an exact copy) reconnects: the verified prefix (one window) ends on a command boundary, which followCheckSome reports as 'aof fully intact'; nothing is truncated, the follower asks AOF 524288, re-applies the last 116 KiB on top of its dataset over a slow link, appends them to its log again and claims caught_up after the first command",
+			spec: caseSpec{Init: initEmpty, FirstSync: true, Settle: true,
+				Pre:     append(padsExactly("pad", window), padsCycling("pad", 4, 29000, 1)...),
+				TailCut: true, TailDelayMs: 100, TailChunk: 4096, TailGapMs: 20},
+		},
+		{
 			name: "superseded-session-claims", finding: findingStaleSession, status: "open",
 			what: "follower in sync (log > 512 KiB); link cut; the follower's new session has sent AOF <pos> (pos = its whole log) and waits for +OK (held 2.5 s by the proxy); leader writes; FOLLOW no one + FOLLOW starts a second session (its +OK held 9 s); the first session gets +OK, finds pos >= aof_size of its old SERVER reply and sets caught_up although it was superseded: caught_up=true / HEALTHZ ok while the leader's later writes are missing",
 			spec: caseSpec{Init: initEmpty, FirstSync: true, Settle: true,
@@ -417,6 +432,7 @@ func TestC06_Faults(t *testing.T) {
 	o.noRenameWithHooks = o.noOwnHooks
 	o.noStarDigit = ev.KnownActive(findingCutInsideBulk)
 	o.noStaleSession = ev.KnownActive(findingStaleSession)
+	o.noBoundaryAt512K = ev.KnownActive(findingKeepsTail)
 	n := ev.Pick(48, 150)
 	full := caseGen(genOpts{maxSteps: o.maxSteps})
 	g := caseGen(o)
@@ -446,6 +462,9 @@ func TestC06_Faults(t *testing.T) {
 	}
 	if o.noStaleSession {
 		c.Note("known finding %s active: every step that re-issues FOLLOW is preceded by an oracle evaluation (steady follower), no tail refollow", findingStaleSession)
+	}
+	if o.noBoundaryAt512K {
+		c.Note("known finding %s active: a case whose leader log has a command boundary exactly at offset 524288 when the follower is created is skipped (counted as excluded); for followers with a diverged log the verified prefix can end anywhere, a hit there (about 1e-4 per reconnect) is reported as the known finding", findingKeepsTail)
 	}
 	if o.noStarDigit {
 		c.Note("known finding %s active: no key/id/field name ends in *<digits>", findingCutInsideBulk)
